@@ -152,6 +152,9 @@ pub struct StateStore {
     checkpoints: Arc<RwLock<Vec<CheckpointMetadata>>>,
     /// Last checkpoint time
     last_checkpoint: Arc<RwLock<u64>>,
+    /// Millisecond number used in the most recent checkpoint id; ids are strictly
+    /// increasing per store so that two checkpoints never share a directory
+    last_checkpoint_id_millis: u128,
     /// Redis connection (if using Redis backend)
     #[cfg(feature = "streaming-redis")]
     redis_client: Option<Arc<RwLock<Client>>>,
@@ -183,6 +186,7 @@ impl StateStore {
             state: Arc::new(RwLock::new(HashMap::new())),
             checkpoints: Arc::new(RwLock::new(Vec::new())),
             last_checkpoint: Arc::new(RwLock::new(0)),
+            last_checkpoint_id_millis: 0,
             #[cfg(feature = "streaming-redis")]
             redis_client,
         }
@@ -481,13 +485,20 @@ impl StateStore {
 
     /// Create a checkpoint of current state
     pub fn checkpoint(&mut self, name: impl Into<String>) -> StateResult<String> {
-        let checkpoint_id = format!(
-            "checkpoint_{}",
-            SystemTime::now()
-                .duration_since(UNIX_EPOCH)
-                .unwrap()
-                .as_millis()
-        );
+        // Checkpoint ids are `checkpoint_<millis>`. Two checkpoints taken within the same
+        // millisecond (or after the wall clock stepped back) must not share an id: the later
+        // one would overwrite the earlier one's directory. Keep the number strictly increasing.
+        let now_millis = SystemTime::now()
+            .duration_since(UNIX_EPOCH)
+            .unwrap()
+            .as_millis();
+        let id_millis = if now_millis > self.last_checkpoint_id_millis {
+            now_millis
+        } else {
+            self.last_checkpoint_id_millis + 1
+        };
+        self.last_checkpoint_id_millis = id_millis;
+        let checkpoint_id = format!("checkpoint_{}", id_millis);
 
         let state = self.state.read().unwrap();
         let snapshot: HashMap<String, Value> = state
